@@ -350,6 +350,7 @@ namespace Pistache::Async
                 catch (const InternalRethrow& e)
                 {
                     PISTACHE_VERIF_YIELD(36, chain_.get());
+                    PISTACHE_VERIF_LOCK_SCOPE(chain_->mtx);
                     std::unique_lock<std::mutex> guard(chain_->mtx);
                     chain_->exc   = e.exc;
                     chain_->state = State::Rejected;
@@ -439,6 +440,7 @@ namespace Pistache::Async
                 {
                     reject_(core->exc);
                     PISTACHE_VERIF_YIELD(39, this->chain_.get());
+                    PISTACHE_VERIF_LOCK_SCOPE(this->chain_->mtx);
                     std::unique_lock<std::mutex> guard(this->chain_->mtx);
                     for (const auto& req : this->chain_->requests)
                     {
@@ -454,6 +456,7 @@ namespace Pistache::Async
                     PISTACHE_VERIF_YIELD(30, this->chain_.get());
                     // then() on the derived promise may run concurrently: settle it and
                     // walk its continuations under its lock, like Resolver does
+                    PISTACHE_VERIF_LOCK_SCOPE(this->chain_->mtx);
                     std::unique_lock<std::mutex> guard(this->chain_->mtx);
                     this->chain_->template construct<CleanRet>(std::forward<Ret>(ret));
                     PISTACHE_VERIF_YIELD(31, this->chain_.get());
@@ -493,6 +496,7 @@ namespace Pistache::Async
                 {
                     reject_(core->exc);
                     PISTACHE_VERIF_YIELD(39, this->chain_.get());
+                    PISTACHE_VERIF_LOCK_SCOPE(this->chain_->mtx);
                     std::unique_lock<std::mutex> guard(this->chain_->mtx);
                     for (const auto& req : this->chain_->requests)
                     {
@@ -508,6 +512,7 @@ namespace Pistache::Async
                     PISTACHE_VERIF_YIELD(30, this->chain_.get());
                     // then() on the derived promise may run concurrently: settle it and
                     // walk its continuations under its lock, like Resolver does
+                    PISTACHE_VERIF_LOCK_SCOPE(this->chain_->mtx);
                     std::unique_lock<std::mutex> guard(this->chain_->mtx);
                     this->chain_->template construct<CleanRet>(std::forward<Ret>(ret));
                     PISTACHE_VERIF_YIELD(31, this->chain_.get());
@@ -633,6 +638,7 @@ namespace Pistache::Async
                     void operator()(const PromiseType& val)
                     {
                         PISTACHE_VERIF_YIELD(33, chainCore.get());
+                        PISTACHE_VERIF_LOCK_SCOPE(chainCore->mtx);
                         std::unique_lock<std::mutex> guard(chainCore->mtx);
                         chainCore->construct<PromiseType>(val);
                         PISTACHE_VERIF_YIELD(34, chainCore.get());
@@ -661,6 +667,7 @@ namespace Pistache::Async
                     promise.then(std::move(chainer), [weakPtr](std::exception_ptr exc) {
                         if (auto core = weakPtr.lock())
                         {
+                            PISTACHE_VERIF_LOCK_SCOPE(core->mtx);
                             std::unique_lock<std::mutex> guard(core->mtx);
                             core->exc   = std::move(exc);
                             core->state = State::Rejected;
@@ -718,6 +725,7 @@ namespace Pistache::Async
                     void operator()(const PromiseType& val)
                     {
                         PISTACHE_VERIF_YIELD(33, chainCore.get());
+                        PISTACHE_VERIF_LOCK_SCOPE(chainCore->mtx);
                         std::unique_lock<std::mutex> guard(chainCore->mtx);
                         chainCore->construct<PromiseType>(val);
                         PISTACHE_VERIF_YIELD(34, chainCore.get());
@@ -765,6 +773,7 @@ namespace Pistache::Async
                     auto chainer = makeChainer(promise);
                     promise.then(std::move(chainer), [=](std::exception_ptr exc) {
                         auto core = this->chain_;
+                        PISTACHE_VERIF_LOCK_SCOPE(core->mtx);
                         std::unique_lock<std::mutex> guard(core->mtx);
                         core->exc   = std::move(exc);
                         core->state = State::Rejected;
